@@ -29,8 +29,6 @@ class _Call:
 def method_calls(p, func, meth):
     out = []
     for e in p.events:
-        if e.func != func:
-            continue
         if e.kind == "method_call" and e.data["meth"] == meth:
             out.append(_Call(e, meth, e.data["args"]))
         elif e.kind == "opaque_call" and e.data["name"].endswith("." + meth):
